@@ -607,8 +607,15 @@ func graphDump(g *graph.DependencyGraph) string {
 // structDump is the deep dump without the caches: what "the graph exactly as
 // it was" refers to (stale caches are caught by the query comparison instead).
 func structDump(g *graph.DependencyGraph) string {
-	return kit.Dump(g, "DependencyGraph.cycleCache", "DependencyGraph.cycleCacheDirty", "DependencyGraph.sortedNodes", "DependencyGraph.sortedNodesDirty", "Node.Visited", "Node.Visiting",
-		"Node.Dependents") // dependents are an unordered set (compared by the GetDependents query)
+	// structural rules instead of field names, so that renaming a cache does not matter:
+	// bools (dirty flags, traversal marks) and bool-valued maps (cycle cache) are masked,
+	// slices of node pointers (sorted-order cache) are masked, and lists of node keys are
+	// compared as multisets (dependents are unordered; the order of dependencies is checked by
+	// the GetDependencies query).
+	d := kit.NewDumper()
+	d.MaskBools, d.MaskPtrSlices, d.SortStructSlices = true, true, true
+	d.SkipType = map[string]bool{"RWMutex": true, "Mutex": true}
+	return d.Render(g)
 }
 
 // ---- explicit-state search
